@@ -536,7 +536,10 @@ def rule_d(ctx):
         reads -= methods
         ld = StateAnalysis(m, k, ["load"])
         loaded = set(ld.call_written)
-        ct = StateAnalysis(m, k, ["__init__"])
+        # configuring entry points: the constructor and every public method that is neither the correction itself nor persistence (setup(...), fit(...))
+        NOT_CONFIG = {"correct_array", "correct_metadata", "correct_array_series", "save", "load", "__call__", "return_config", "__init__"}
+        config_methods = ["__init__"] + sorted(n_ for kk in m.mro(k) if kk.module.name.startswith("darsia.corrections") for n_ in kk.methods if not n_.startswith("_") and n_ not in NOT_CONFIG)
+        ct = StateAnalysis(m, k, [n_ for n_ in config_methods if m.method(k, n_) is not None])
         # constructor-argument dependence, transitively through attributes
         dep = {}
         for a, sites in ct.call_written.items():
@@ -561,7 +564,7 @@ def rule_d(ctx):
                 continue
             ok = a not in argdep
             ctx.ob(R, k.qname, f"{k.name}.{a} (read when correcting) is restored by load or fixed by the zero-argument constructor", ok,
-                   f"self.{a} depends on a constructor argument, is read by correct_array/correct_metadata, and load() never assigns it: a saved and re-read {k.name} falls back to the default", l.node)
+                   f"self.{a} depends on an argument of the constructor / a configuring method ({', '.join(config_methods[:4])}), is read by correct_array/correct_metadata, and load() never assigns it: a saved and re-read {k.name} falls back to the default", l.node)
         ctx.ob(R, k.qname, f"{k.name}: persistence closure analysed", True, f"reads {len(reads)} attributes, load assigns {sorted(loaded)[:8]}", l.node)
     ctx.floor(R, 5)
 
